@@ -4,7 +4,7 @@ from hypothesis import strategies as st
 from ECAgent.Core import Agent, Model
 from ECAgent.Environments import GridWorld
 from vf.engine import Violation, InvalidCase
-from vf.fixtures import CompA, CompB, CompC, CompD, check, sized_lists, wone_of
+from vf.fixtures import CompA, CompB, CompC, CompD, CompF, check, sized_lists, wone_of
 
 PROPERTY = "C13"
 BUDGET = {"quick": 1600, "thorough": 5000}
@@ -19,7 +19,7 @@ RULE = ("Population histories (add with component subset of {A,B,C} and tag in {
 ASSUMPTIONS = ["reachability uses N = 60*k draws: the probability that a fair pick misses one of k <= 8 candidates is < 1e-24, and the "
                "outcome is a deterministic function of the generated model seed"]
 
-TYPES = [CompA, CompB, CompC, CompD]
+TYPES = [CompA, CompB, CompF, CompD]     # CompF instances are falsy; nobody has CompD
 
 
 def run_case(case):
